@@ -183,6 +183,8 @@ def pick(r, f, cur, sc, dck0):
         cands = [r.getrandbits(32), 0, 0xFFFFFFFF, flip(r, cur[f], 32)]
     elif f == "beacon":
         cands = [r.randrange(1 << 16), 0, 0xFFFF, flip(r, cur[f], 16)]
+        if sc["case"]["cls"] != "ele2":    # classic and enclave (ECC format) credentials: a 4-byte field - values above the 16-bit boundary and with the top bit
+            cands += [0x10000 | r.randrange(1 << 16), 0x80000000 | r.getrandbits(31)]
     elif f == "socc":
         cands = [x for x in [sc["fam"]["socc"]] + list(sc["soccs"]) if x != cur["socc"]]
         return cands[r.randrange(len(cands))]
@@ -247,7 +249,7 @@ def run_cred_scenario(sc):
         small = not case["wild"] and (sc["id"] + hs["k"]) % 7 == 3          # a device whose UUID is a small number
         uuid = bytes(16) if case["wild"] else (bytes(8) if small else b"") + bytes(r.randrange(1, 256) for _ in range(8 if small else 16))
         vals = {"socc": fam["socc"], "uuid": uuid, "socu": r.getrandbits(32), "vu": 0 if cls == "ele2" else r.getrandbits(32),
-                "beacon": 0 if cls == "ele2" else r.randrange(1 << 16), "dck": dck0}
+                "beacon": 0 if cls == "ele2" else M.width_value(r, sc["id"] + hs["k"]), "dck": dck0}   # the 32-bit word of the format at its width boundaries
         cred = RefCred(sc, sc.get("refhost") == "stale") if sc.get("refhost") else SpsdkCred(sc)
         try:
             cred.new(vals, rot, used)
